@@ -6,11 +6,11 @@ ASSUMPTIONS = B.ASSUMPTIONS
 ASPECTS = 'DFA'
 RULE = ('random histories of 2-5 connections over two permission tables: per-connection scripts of AUTH (valid and ten invalid '
         'digest variants), SUBSCRIBE/UNSUBSCRIBE/PUBLISH (mostly permitted, some forbidden or spoofed), malformed frames; '
-        'streams cut at random (whole, per frame, per byte, inside headers, pipelined bursts of 1-4 whole frames); some plans add valid re-authentication under another identity and a directed scenario (subscribe, re-authenticate, leave, then others publish on every channel ever held); events interleaved at random with Lost, EOF, '
+        'streams cut at random (whole, per frame, per byte, inside headers, pipelined bursts of 1-4 whole frames); some plans add valid re-authentication under another identity and a directed scenario (subscribe, re-authenticate, leave, then others publish on every channel ever held); a directed scenario in which the (synchronous) credential store changes between callbacks - a secret is rotated, channel lists change, an entry is removed - and fresh connections present the old and the new secret while earlier ones go on under the row they authenticated with; events interleaved at random with Lost, EOF, '
         'pause/resume-writing and clock ticks; non-trivial = at least one PUBLISH was delivered; distinct by event list. '
         'Compared with the Coq model on aspects %s; frame-normalised synchronous-store histories (one frame per read, or a read of several permitted frames) are '
         'also judged by harness/judge.py')
-PLAN = [(40, 600, dict(scenario='reauth_stale'), True), (40, 800, dict(profile='mixed', chunking='bursts', reauth=0.06), True), (100, 2500, dict(profile='mixed'), False), (120, 2500, dict(profile='mixed', chunking='frames'), True), (40, 1000, dict(profile='hostile', chunking='frames'), True)]
+PLAN = [(30, 400, dict(scenario='store_change'), False), (40, 600, dict(scenario='reauth_stale'), True), (40, 800, dict(profile='mixed', chunking='bursts', reauth=0.06), True), (100, 2500, dict(profile='mixed'), False), (120, 2500, dict(profile='mixed', chunking='frames'), True), (40, 1000, dict(profile='hostile', chunking='frames'), True)]
 
 
 def run(ctx, res):
